@@ -25,9 +25,6 @@ MANIFEST = dict(
     technique="Coq proof (model of values_equal/compute_canonical_tuples/create_ref) + model/code correspondence by differential execution + end-to-end structural-equality oracle on real programs",
 )
 
-# id under which the nil-pin verdict-encoding defect is matched in known_findings.json
-NIL_PIN_FINDING = "F22"
-
 OK_LINE = "(ok (t Ok ()))"
 NIL_LINE = "(ok (t - ()))"
 
@@ -170,7 +167,9 @@ def mutate(rng, T, v):
             return ("b", b[:-1])
         i = rng.randrange(len(b))
         return ("b", b[:i] + bytes([b[i] ^ (1 << rng.randrange(8))]) + b[i + 1:])
-    if kind in ("r", "bi", "p", "res"):
+    if kind == "r":
+        return ("r", v[1] - 1 if v[1] >= 2**64 - 1 else v[1] + 1)
+    if kind in ("bi", "p", "res"):
         return (kind, v[1] + 1)
     if kind == "f":
         if v[2] and rng.random() < 0.7:
@@ -337,9 +336,24 @@ def gen_equal_case(rng):
             return "(bc %d)" % (len(T.consts) - 1)
         return "(t %d%s)" % (rng.choice(T.ids_of((v[1], v[2]))), "".join(" " + real(f) for f in v[3]))
 
+    def mut(v):
+        # arity-preserving: Tuple(tid) pops exactly the table arity
+        if v[0] == "i":
+            return ("i", v[1] + 1)
+        if v[0] == "b":
+            return ("b", v[1] + b"\x01")
+        if v[3] and rng.random() < 0.7:
+            i = rng.randrange(len(v[3]))
+            return ("t", v[1], v[2], v[3][:i] + (mut(v[3][i]),) + v[3][i + 1:])
+        same = [s for s in T.shapes() if s != (v[1], v[2]) and len(s[1]) == len(v[2])]
+        if same:
+            n2, l2 = rng.choice(same)
+            return ("t", n2, l2, v[3])
+        return ("i", 0)
+
     n = rng.choice([1, 2, 2, 2, 3, 4])
     first = val(2)
-    vals = [first] + [first if rng.random() < 0.6 else (mutate(rng, T, first) if rng.random() < 0.7 else val(2)) for _ in range(n - 1)]
+    vals = [first] + [first if rng.random() < 0.6 else (mut(first) if rng.random() < 0.7 else val(2)) for _ in range(n - 1)]
     extra = [val(1) for _ in range(rng.choice([0, 0, 1]))]          # deeper in the stack, not compared
     count = n if rng.random() < 0.92 else n + len(extra) + 1        # sometimes more than the stack holds
     body = " ".join(real(v) for v in extra + vals)
@@ -477,22 +491,27 @@ class ProgGen:
             self.used("generic-constructor")
             return "[%s] %s" % (", ".join(self.build(x, depth + 1) for x in fs), f)
         if fs and all(labels) and len(set(labels)) == len(labels) and k < 0.5:
+            # Spread bases are bound first and built without the union-typed `via-branch` wrapper
+            # (spreading a union-typed base drops the tuple name); added fields are bound first too
+            # (a callable in a spread field is not called, unlike in a plain tuple).
             base = self.fresh("s")
             if rng.random() < 0.5:
                 # spread + add the last field
-                self.pre.append("%s = %s" % (base, self.build(("t", name, labels[:-1], fs[:-1]), depth + 1)))
+                self.pre.append("%s = %s" % (base, self.build(("t", name, labels[:-1], fs[:-1]), depth + 1, plain=True)))
+                last = self.fresh("x")
+                self.pre.append("%s = %s" % (last, self.build(fs[-1], depth + 1)))
                 self.used("spread-extend")
-                return "%s[..., %s: %s]" % (base, labels[-1], self.build(fs[-1], depth + 1))
+                return "%s[..., %s: %s]" % (base, labels[-1], last)
             # spread under another name
             other = rng.choice([n for n in ("Q", "R") if n != name])
-            self.pre.append("%s = %s" % (base, self.build(("t", other, labels, fs), depth + 1)))
+            self.pre.append("%s = %s" % (base, self.build(("t", other, labels, fs), depth + 1, plain=True)))
             self.used("spread-rename")
             return "%s[...%s]" % (name or "", base)
         self.used("literal-tuple")
         inner = ", ".join((l + ": " if l else "") + self.build(f, depth + 1) for l, f in zip(labels, fs))
         return "%s%s" % (name or "", "[%s]" % inner if fs else "")
 
-    def build(self, v, depth=0, atom=False):
+    def build(self, v, depth=0, atom=False, plain=False):
         """An expression evaluating to v (may add prelude statements). `atom`: must be usable as the
         first term of a longer chain without changing meaning (always true for what we emit)."""
         rng = self.rng
@@ -514,7 +533,10 @@ class ProgGen:
             self.pre.append("%s = #{ %s }" % (f, e))
             self.used("via-function-result")
             return f
-        if k < 0.34:
+        if k < 0.34 and not plain and not is_nil(v):
+            # (a nil consequence falls through to the next branch, and a binding of a `T | []` value
+            # is typed without the nil -- a typing defect reported separately -- so nil is not built
+            # along this path)
             self.used("via-branch")
             return "1 { | =1 => %s | 0 }" % e
         if k < 0.42 and depth <= 1:
@@ -708,7 +730,7 @@ def run(ctx):
     for line in corpus("c13_programs.txt"):
         exp, src = line.split(" ", 1)
         progs.append(src)
-        pmetas.append(dict(expect={"Ok": OK_LINE, "Nil": NIL_LINE}.get(exp, exp), form="corpus", mode="corpus", nil_pin=(exp == "NilPin"),
+        pmetas.append(dict(expect={"Ok": OK_LINE, "Nil": NIL_LINE}.get(exp, exp), form="corpus", mode="corpus", nil_pin=False,
                            paths={}, nontrivial=True, multi="@" in src or "__file_open__" in src, corpus=True))
     for _ in range(ctx.n(5000, 150000)):
         line, meta = gen_program(rng, multi=False)
@@ -760,13 +782,6 @@ def run(ctx):
                 pstats["equal_via_different_paths"] += 1
         pstats["verdict_ok" if res[0] == OK_LINE else "verdict_nil"] += 1
         if bad:
-            if meta["nil_pin"] and all(x == NIL_LINE for x in bad):
-                # both values are nil and the pattern goes through Equal(2); Not: known verdict-encoding defect
-                p = ctx.violation({"kind": "impl-violation", "what": "pin / repeated binder on two nil values does not match (handle_equal returns `first`, which is nil)",
-                                   "source": src, "expected": meta["expect"], "impl": res}, finding_key=NIL_PIN_FINDING)
-                if p:
-                    disagreements += 1
-                continue
             disagreements += 1
             if disagreements <= 8:
                 ctx.violation({"kind": "impl-violation", "what": "pattern verdict differs from structural equality of the two values",
